@@ -65,6 +65,11 @@ impl Known {
     }
 }
 
+/// Signature to look for when the process re-runs an enumeration as a replay (`VX_REPLAY_SIG`).
+pub fn replay_target() -> Option<String> {
+    std::env::var("VX_REPLAY_SIG").ok().filter(|s| !s.is_empty())
+}
+
 pub struct Tier {
     pub thorough: bool,
     pub seed: u64,
@@ -140,6 +145,16 @@ impl Report {
     /// that lets `vx replay` reproduce it.
     pub fn violation(&mut self, sig: &str, message: &str, replay: Value) {
         *self.violation_counts.entry(sig.to_string()).or_insert(0) += 1;
+        // `vx replay <file>` of an enumeration engine: the case is identified by its signature and
+        // re-found by re-running the (deterministic) enumeration; nothing is written.
+        if let Some(want) = replay_target() {
+            if sig == want && !self.unknown.iter().any(|u| u.0 == sig) {
+                println!("REPRODUCED {}", sig);
+                println!("  {}", message);
+                self.unknown.push((sig.to_string(), PathBuf::from("/dev/null"), message.to_string()));
+            }
+            return;
+        }
         if let Some(k) = self.known.find(&self.property, sig) {
             if self.known_matched.insert(sig.to_string()) {
                 println!(
@@ -176,6 +191,7 @@ impl Report {
         let path = dir.join(name);
         if let Value::Object(m) = &mut replay {
             m.insert("property".into(), json!(self.property));
+            m.insert("tier".into(), json!(self.tier));
             m.insert("signature".into(), json!(sig));
             m.insert("message".into(), json!(message));
         }
@@ -290,6 +306,14 @@ impl Report {
 
     /// Write the evidence file and return the process exit code.
     pub fn finish(mut self) -> i32 {
+        if let Some(want) = replay_target() {
+            return if self.unknown.iter().any(|u| u.0 == want) {
+                1
+            } else {
+                println!("not reproduced: no case of this run has signature {:?}", want);
+                0
+            };
+        }
         let wall = self.t0.elapsed().as_secs_f64();
         let mut coverage = serde_json::Map::new();
         coverage.insert("evaluations".into(), json!(self.evaluations));
